@@ -7,7 +7,8 @@ from sa import rules as K
 UNITS = ['net/http/message.cpp', 'net/http/headers.cpp', 'net/http/body.cpp']
 FLOOR = 18
 P = 'C13'
-CLAIM = ('Decides ONLY the bounded-write clause of the property for net/http/{message,headers,body}.cpp: every raw write into the '
+CLAIM = ('[Besides the bounded-write clause, two structural necessary conditions of the framing clauses are decided: the header-terminator search looks back at least len(terminator)-1 bytes before the newly received bytes (fragmentation independence of header detection), and the chunk-line reader never reports progress on end-of-stream (no endless loop on a truncated chunked body).] '
+         'Decides ONLY the bounded-write clause of the property for net/http/{message,headers,body}.cpp: every raw write into the '
          'caller-supplied message buffer or the chunk line buffer is dominated by a capacity test over the same quantities (receive, '
          'append, header insert/append/index growth, the header terminator, the request line of plain and proxied requests, the status '
          'line, the chunk-line receive whose length is capacity minus fill); the header is parsed only after its terminator was found and '
@@ -49,6 +50,33 @@ def message(R, prog):
                require=lambda st, ev: any(re.match(r'^G:(pos|\[.*find\(.*\)\]) == .*npos=F$', k) for k in CN(st)) and any(re.match(r'^G:this->message_status == \d+=F$', k) for k in st),
                key_fn=lambda ev: P + '.K6:Message::append_bytes:parse-once-after-terminator',
                describe=lambda ev: 'the header is parsed only after CRLFCRLF was found and only if not already parsed', min_sites=1)
+    # the search for the header terminator must look back far enough to find one that straddles two recv() results
+    f = G.root
+    key = P + '.K11:Message::append_bytes:terminator-lookback-covers-a-straddling-terminator'
+    finds = [e for e in f.exprs if e['k'] == 'call' and strip_targs(e.get('fn') or '').endswith('::find') and e.get('args') and (f.x(f.skip(e['args'][0])) or {}).get('t') == 'str']
+    if len(finds) != 1:
+        R.broken.append('C13.K11: append_bytes no longer searches one literal terminator (found %d find calls)' % len(finds))
+    else:
+        term = f.x(f.skip(finds[0]['args'][0]))['s']
+        hay = f.path(finds[0]['recv'])                                  # the string_view searched
+        hv = [f.value_init(d) for d, dj in enumerate(f.decls) if dj['name'] == hay and dj['kind'] == 'local']
+        start = f.path(f.x(f.skip(hv[0]))['args'][0]) if hv and hv[0] is not None and hv[0] >= 0 and (f.x(f.skip(hv[0])) or {}).get('k') == 'construct' else None
+        incomes = K.locals_defined_only_by(f, r'^\(this->m_buf \+ this->m_buf_size\)$')      # where the new bytes begin
+        defs = []
+        for e in f.exprs:
+            if e['k'] == 'declstmt':
+                defs += [f.show(v['init']) for v in e['vars'] if f.decls[v['decl']]['name'] == start and v.get('init') is not None and v['init'] >= 0]
+            elif e['k'] == 'binop' and e['op'] == '=' and f.path(e['l']) == start:
+                defs.append(f.show(e['r']))
+        bad = []
+        for d in defs:
+            m = re.match(r'^\((\w+) - (\d+)\)$', d)
+            if d == 'this->m_buf' or (m and m.group(1) in incomes and int(m.group(2)) >= len(term) - 1):
+                continue
+            bad.append(d)
+        ok = start is not None and defs and not bad
+        (R.held if ok else R.violated)(P + '.K11', key, f.id, f.locl(finds[0]['loc']),
+                                        'search window for %r starts at %s := %s; every start must be the buffer start or >= %d bytes before the new bytes' % (term, start, defs, len(term) - 1))
     G = K.build(R, prog, M + 'Message::send_header')
     res = an.run(G, [an.GuardTracker(lambda k: True)])
     K.check_at(R, P + '.K6', G, res, lambda ev: ev.kind == 'call' and ev.callee() == 'memcpy',
@@ -169,6 +197,19 @@ def body(R, prog):
     if n < 2:
         R.broken.append('C13.K11: chunk line buffer writes not found')
     res = an.run(G, [an.GuardTracker(lambda k: True)])
+    rr = K.locals_assigned_from_call(f, r'::recv$')
+    R.require(len(rr) == 1, 'C13: get_new_chunk no longer keeps the result of recv in one local')
+    rr = sorted(rr)[0]
+    res3 = an.run(G, [an.GuardTracker(lambda k: True), an.SeenTracker([('recv', lambda ev: ev.kind == 'call' and (ev.callee() or '').endswith('::recv'))])])
+    K.check_at(R, P + '.K6', G, res3, lambda ev: ev.kind == 'return' and ev.depth == 0,
+               require=lambda st, ev: 'S:recv' not in st or
+               (ev.f.const(ev.e['sub']) is None and ev.path(ev.e['sub']) == rr and ('G:%s < 0=T' % rr) in st) or
+               (ev.f.const(ev.e['sub']) is not None and ev.f.const(ev.e['sub']) < 0) or
+               (ev.f.const(ev.e['sub']) == 0 and ((('G:%s < 0=F' % rr) in st and (('G:%s == 0=F' % rr) in st or ('G:%s=T' % rr) in st)) or
+                                                  ('G:%s <= 0=F' % rr) in st or ('G:0 < %s=T' % rr) in st or ('G:%s < 1=F' % rr) in st)),
+               key_fn=lambda ev: P + '.K6:ChunkedBodyReadStream::get_new_chunk:eof-is-an-error-not-progress',
+               describe=lambda ev: 'after recv(), 0 ("chunk header parsed") is returned only if bytes arrived; end-of-stream inside a chunked body is an error (the caller loops on 0)',
+               min_sites=2, what='returns after recv')
     K.check_at(R, P + '.K6', G, res, lambda ev: ev.kind == 'call' and ev.callee() == 'memmove',
                require=lambda st, ev: 'G:this->m_cursor < this->m_line_size=T' in st,
                key_fn=lambda ev: P + '.K6:ChunkedBodyReadStream::get_new_chunk:compaction-only-with-pending-bytes', describe=lambda ev: 'compaction length m_line_size - m_cursor is positive', min_sites=1)
